@@ -276,24 +276,43 @@ func (sv *Solver) SolveAll(obls []*Obligation, workers int, progress func(o *Obl
 			defer wg.Done()
 			for o := range ch {
 				if o.Result == "" {
-					q := o.Query()
-					r, s, t, d := sv.Solve(o.Name, q)
-					o.Result, o.Solver, o.Seconds, o.Model = r, s, t, d
-					if r != "unsat" && r != "sat" && len(o.Split) > 1 && !sv.smokeOnly {
-						// case split on the incoming edges of the merge block
-						all := true
-						var tot float64
+					solveSplit := func() bool {
+						// all cases in parallel; every case must be unsat
+						type cr struct {
+							r string
+							t float64
+						}
+						ch := make(chan cr, len(o.Split))
 						for _, c := range o.Split {
-							r2, _, t2, _ := sv.Solve(o.Name, o.QueryCase(c))
-							tot += t2
-							if r2 != "unsat" {
+							q := o.QueryCase(c)
+							go func() {
+								r2, _, t2, _ := sv.Solve(o.Name, q)
+								ch <- cr{r2, t2}
+							}()
+						}
+						all := true
+						for range o.Split {
+							x := <-ch
+							o.Seconds += x.t
+							if x.r != "unsat" {
 								all = false
-								break
 							}
 						}
-						o.Seconds += tot
-						if all {
+						return all
+					}
+					if o.SplitFirst && len(o.Split) > 1 && !sv.smokeOnly {
+						if solveSplit() {
 							o.Result, o.Solver = "unsat", "split"
+						}
+					}
+					if o.Result == "" {
+						q := o.Query()
+						r, s, t, d := sv.Solve(o.Name, q)
+						o.Result, o.Solver, o.Seconds, o.Model = r, s, o.Seconds+t, d
+						if r != "unsat" && r != "sat" && len(o.Split) > 1 && !sv.smokeOnly && !o.SplitFirst {
+							if solveSplit() {
+								o.Result, o.Solver = "unsat", "split"
+							}
 						}
 					}
 				}
